@@ -307,6 +307,32 @@ def job_sched(j):
             continue
         pre_values = {}  # setup results already on this DAG instance: site -> value
         sset = sched.setup_sites(sp)
+        if not sset and rng.random() < j.get("compose_rate", 0.12):
+            # the same nodes scheduled by a DAG obtained through compose(): every DAG argument as input, every sink as output,
+            # its own max_concurrency (and flavour) given to compose()
+            import copy
+            import warnings
+
+            g0 = S.site_graph(sp)
+            sinks = [ids[i] for i in range(len(ids)) if g0.out_degree(i) == 0]
+            sp2 = copy.deepcopy(sp)
+            sp2["mc"] = rng.randint(1, j.get("gen", {}).get("mc_max", 4))
+            kwc = {"max_concurrency": sp2["mc"]}
+            if rng.random() < 0.3:
+                sp2["is_async"] = not sp["is_async"]
+                kwc["is_async"] = sp2["is_async"]
+            try:
+                with warnings.catch_warnings():
+                    warnings.simplefilter("ignore")
+                    dc = d.compose(sp["name"] + "_composed", ..., sinks, **kwc)
+            except BaseException as e:  # noqa: BLE001
+                col.counters["compose_refused:%s" % type(e).__name__] += 1
+            else:
+                if set(ids) - set(dc.exec_nodes):
+                    col.counters["composed_dag_misses_nodes"] += 1
+                else:
+                    d, sp = dc, sp2
+                    col.counters["composed_dags_scheduled"] += 1
         reconf_at = None
         if rng.random() < j.get("reconfig", 0.45):
             reconf_at = rng.choice([0, 1])  # before the first call, or after it (call, reload, call on one object)
